@@ -131,11 +131,15 @@ pub fn build(p: ValuePointerRef, steps: &[Step], at: usize, f: &mut dyn FnMut(&V
 }
 
 fn random_key(rng: &mut Rng) -> String {
-    match rng.below(8) {
+    match rng.below(10) {
         0 => String::new(),
         1 => rng.below(5).to_string(), // a key that looks like an index
         2 => "é日\"\\\n".to_string(),
         3 => "a.b[0]".to_string(),
+        // characters that pointer syntaxes (RFC 6901, JSONPath, URLs) treat specially
+        8 => (*rng.pick(&["a/b", "~user", "a~1b", "text/plain", "~0", "/", "~", "a b", "%2F", "$.x", "#", "a\tb"])).to_string(),
+        // the previous key again (paths like next.next.next)
+        9 => "next".to_string(),
         _ => {
             let n = 1 + rng.below(6);
             (0..n).map(|_| (b'a' + rng.below(26) as u8) as char).collect()
